@@ -8,6 +8,8 @@
 mod api;
 mod c06;
 mod c07;
+mod c12;
+mod c14;
 mod c13;
 mod fp;
 
@@ -41,7 +43,9 @@ fn table(id: &str) -> Option<(RunFn, MetaFn)> {
     Some(match id {
         "C06" => (c06::run, c06::meta),
         "C07" => (c07::run, c07::meta),
+        "C12" => (c12::run, c12::meta),
         "C13" => (c13::run, c13::meta),
+        "C14" => (c14::run, c14::meta),
         _ => return None,
     })
 }
@@ -50,7 +54,9 @@ fn replay_table(op: &str) -> Option<ReplayFn> {
     Some(match pre {
         "c06" => c06::replay,
         "c07" => c07::replay,
+        "c12" => c12::replay,
         "c13" => c13::replay,
+        "c14" => c14::replay,
         _ => return None,
     })
 }
